@@ -36,6 +36,11 @@ def run(ctx, prop):
         # producers - the inductive invariant of proofs/tasklane checked by the TLA+ proof system (about 2 minutes)
         import p_p01
         ctx.tlaps("tasklane", p_p01.TASKLANE_PROOF, timeout=2400, tag="TaskLaneProof (unbounded safety of the protocol model)")
+    if not q and prop == "C14":
+        # unbounded: cnt in 0..N and every Status() result in 0..N*(Q+1) for ANY N, Q, tasks, producers (on top of the protocol invariant)
+        import p_p01
+        ctx.tlaps("tasklane", p_p01.TASKLANE_PROOF + ["TaskLaneCountProof", "TaskLaneStatusProof"], timeout=2400,
+                  tag="TaskLaneProof + CountProof + StatusProof (CntBounds, StatusBounds unbounded)")
     if prop == "C08":
         # unbounded: a queue goroutine parked offering and a worker parked listening never coexist while the context is live
         ctx.tlaps("tasklane", "TaskLaneShareProof", timeout=900, tag="TaskLaneShareProof (NoIdleWhileWaiting for any N, Q, tasks, producers)")
